@@ -188,7 +188,7 @@ def _job(job):
             _G['prog'] = Program(job['mir'])
         prog = _G['prog']
         fn = pipe_facts(prog, job['repo'])['worker'] if job['which'] == 'pipe' else buffered_worker(prog, job['repo'])
-        tp = mirbmc.ThreadProgram(fn)
+        tp = mirbmc.ThreadProgram(fn, prog)
         cfg = dict(job['cfg'])
         n = BVI('n')
         t0 = time.time()
@@ -221,3 +221,47 @@ def run_jobs(jobs, procs=16):
     ctx = mp.get_context('fork')
     with ctx.Pool(min(procs, len(jobs))) as pool:
         return list(pool.imap_unordered(_job, jobs, chunksize=1))
+
+
+LOOKAHEAD_CLAIM = 'bounded lookahead'
+
+
+def run_unthreaded(tier, mir, repo, native, seed, procs, prop, only=None):
+    """The num_threads = 0 branch of Pipe (no thread, so no schedule): MIRSE interprets Pipe::new / Pipe::next of the
+    real code (harnesses/c05seq.py).  C05 takes every claim but the lookahead one, C09 only the lookahead claim."""
+    import json
+    import engine
+    import harnesses
+    h = harnesses.get('c05seq')
+    shapes = h.shapes(tier)
+    opts = {'mir': mir, 'repo': repo, 'tier': tier, 'seed': seed, 'stop_on_violation': False, 'first_only': False,
+            'deadline': time.time() + 300}
+    mine = (lambda what: what.startswith(LOOKAHEAD_CLAIM)) if prop == 'C09' else (lambda what: not what.startswith(LOOKAHEAD_CLAIM))
+    out = {'violations': [], 'incon': [], 'coverage': {}}
+    twins = engine.run_harness('c05seq', shapes[-2:], dict(opts, twin=True), procs=min(procs, 4))
+    twin_ok = sum(1 for r in twins if any(v['what'] == 'reachability witness' for v in r['violations']))
+    results = engine.run_harness('c05seq', shapes, opts, procs=min(procs, 8))
+    tot = engine.summarize(results)
+    for u in tot['unsupported']:
+        out['incon'].append('unthreaded branch (MIRSE): ' + u[:600])
+    if twin_ok == 0 or (tot['ok_paths'] == 0 and not tot['violations']):
+        out['incon'].append('unthreaded branch (MIRSE): vacuous run (no path reaches the end of the harness)')
+    seen = set()
+    for v in tot['violations'] + tot['bounds']:
+        if v['what'] in seen:
+            continue
+        seen.add(v['what'])
+        failed = h.concrete_check(native, v['inputs'], v['shape'])
+        if not mine(v['what']) and not any(mine(f) for f in failed):
+            continue        # the other property's claim
+        rec = {'property': prop, 'claim': 'unthreaded pipe (num_threads = 0): ' + v['what'], 'config': {'W': 0, 'n': v['shape']['n']},
+               'shape': v['shape'], 'inputs': v['inputs'], 'native_failed_claims': [f for f in failed if mine(f)]}
+        if rec['native_failed_claims']:
+            out['violations'].append(rec)
+        elif not failed:
+            out['incon'].append('unthreaded branch: symbolic counterexample of "%s" did not reproduce natively' % v['what'])
+    out['coverage'] = {'engine': 'MIRSE', 'shapes': tot['shapes'], 'feasible_paths': tot['ok_paths'], 'solver_queries': tot['checks'],
+                       'property_assertions_discharged': tot['requires'], 'functions_encoded': dict(tot['encoded']),
+                       'std_models_used': dict(tot['models']), 'vacuity_twins_reached_end': twin_ok,
+                       'bounds': 'n in [0, %d] items with symbolic payloads, num_threads = 0' % h.MAX_N[tier]}
+    return out
